@@ -221,8 +221,8 @@ func (g *VCGen) staticCall(callee *ssa.Function, c *ssa.CallCommon, pos token.Po
 	}
 	fc := g.eng.contractFor(callee)
 	if fc == nil {
-		if mc, ok := c.Value.(*ssa.MakeClosure); ok {
-			_ = mc
+		if _, isClosure := c.Value.(*ssa.MakeClosure); !isClosure && (callee.Synthetic != "" || g.eng.isInline(callee)) {
+			return g.inlineCall(callee, g.argVals(c), pos)
 		}
 		panic(unsupported(fmt.Sprintf("call to %s which has no contract", callee.String())))
 	}
@@ -405,6 +405,10 @@ func (g *VCGen) builtin(b *ssa.Builtin, c *ssa.CallCommon, pos token.Pos, v *ssa
 		return nil
 	case "print", "println":
 		return nil
+	case "ssa:wrapnilchk":
+		a := g.val(c.Args[0])
+		g.nilCheck(c.Args[0], a.T, pos)
+		return []SpecVal{{a.T, a.Sort, c.Args[0].Type()}}
 	case "min", "max":
 		if len(c.Args) == 2 {
 			a, bb := g.val(c.Args[0]), g.val(c.Args[1])
